@@ -436,8 +436,8 @@ fn run_transport(
                         // make sure space is freed up as much as possible.
                         let done = drive_connection(conn, wbuf, msgs);
                         if done {
+                            // Only marked here: the client is counted out when it is removed below.
                             clients_to_remove.push(*token);
-                            state.decrement_clients();
                             continue;
                         }
 
@@ -459,7 +459,6 @@ fn run_transport(
                         let done = drive_connection(conn, wbuf, msgs);
                         if done {
                             clients_to_remove.push(*token);
-                            state.decrement_clients();
                         }
                     }
 
